@@ -44,7 +44,7 @@ def prepare(name="lowered", extra_objects=None):
 
 
 def _run_shard(args):
-    (ldir, shard, nshards, nprof, maxlen, only, deep, workers, timeout, outpath, tag, simulate, faults, fault_every, const_path) = args
+    (ldir, shard, nshards, nprof, maxlen, only, deep, workers, timeout, outpath, tag, simulate, faults, fault_every, const_path, det_after) = args
     env = {
         "WOWM_OBJECTS": os.path.join(ldir, "objects.ndjson"),
         "WOWM_BLOCKS": os.path.join(ldir, "blocks.ndjson"),
@@ -54,6 +54,8 @@ def _run_shard(args):
         "WOWM_FAULTS": faults, "WOWM_FAULT_EVERY": fault_every, "WOWM_FAULT_PHASE": C.seed() % max(int(fault_every), 1),
         "WOWM_CONST": const_path or EMPTY_LIST,
     }
+    if det_after is not None:
+        env["WOWM_DET_AFTER"] = det_after
     with open(outpath, "w") as sink:
         res = C.run_tlc("WowmWire", workers=workers, timeout=timeout, env=env,
                         name="%s-shard%d" % (tag, shard), replay_sink=sink, keep_replay_in_memory=False,
@@ -63,13 +65,13 @@ def _run_shard(args):
 
 
 def run_wire(ldir, outdir, nshards=4, workers=4, nprof=1, maxlen=2, only="", deep=False, timeout=1500,
-             tag="wire", simulate=None, faults="0", fault_every=1, const_path=None):
+             tag="wire", simulate=None, faults="0", fault_every=1, const_path=None, det_after=None):
     """Returns (list of shard stats, list of record file paths)."""
     os.makedirs(outdir, exist_ok=True)
     jobs = []
     for s in range(nshards):
         jobs.append((ldir, s, nshards, nprof, maxlen, only, deep, workers, timeout,
-                     os.path.join(outdir, "records-%d.ndjson" % s), tag, simulate, faults, fault_every, const_path))
+                     os.path.join(outdir, "records-%d.ndjson" % s), tag, simulate, faults, fault_every, const_path, det_after))
     t0 = time.time()
     with concurrent.futures.ThreadPoolExecutor(max_workers=nshards) as ex:
         stats = list(ex.map(_run_shard, jobs))
